@@ -87,7 +87,12 @@ func (w *World) main() {
 	w.cancel()
 	simrt.Sleep(2 * time.Second)
 	if w.sc.Profile == "C05" {
-		w.mirrorOracle()
+		// freeze the daemon so that nothing moves under the comparison; a store operation cut
+		// in the middle is not an acknowledged one, so the comparison is skipped then
+		w.run.S.Kill(w.gen)
+		if w.storeOps == 0 {
+			w.mirrorOracle()
+		}
 	}
 }
 
@@ -142,6 +147,7 @@ func (w *World) runOp(i int, op Op) {
 			w.run.S.Log("kubelet", "delete pod object %s", p.spec.Name)
 			w.deletePodObject(p)
 			p.ackAdd = false // GC may collect it at any time from now on
+			p.poolIntact = false
 		}
 	case "recreate":
 		if p != nil && !p.exists {
@@ -158,6 +164,8 @@ func (w *World) runOp(i int, op Op) {
 		w.sleep(time.Duration(op.SleepS) * time.Second)
 	case "drift":
 		w.opDrift(op)
+	case "drift-eni":
+		w.opDriftENI(op)
 	case "gc":
 		w.spawn("gc-direct", op.Async, func() { w.directGC() })
 	case "barrier":
@@ -246,7 +254,7 @@ func (w *World) opAdd(p *podState, op Op) {
 		ctx, cancel, cancelled := w.reqCtx(op)
 		defer cancel()
 		req := &rpc.AllocIPRequest{K8SPodName: p.spec.Name, K8SPodNamespace: ns, K8SPodInfraContainerId: cid(p, sb), Netns: "/proc/1/ns/net", IfName: "eth0"}
-		heldBefore, recV4, recV6 := p.held, p.recV4, p.recV6
+		heldBefore, recV4, recV6 := p.held && p.recCID != "", p.recV4, p.recV6
 		invokeSeq := w.run.S.SeqNo()
 		w.run.S.Log("cni", "ADD invoke %s cid=%s", p.spec.Name, req.K8SPodInfraContainerId)
 		busy := p.inflight > 0
@@ -286,6 +294,7 @@ func (w *World) opAdd(p *podState, op Op) {
 				"pod %s held %s/%s and a repeated ADD returned %s/%s", p.spec.Name, recV4, recV6, v4, v6)
 		}
 		p.recCID, p.recV4, p.recV6 = req.K8SPodInfraContainerId, v4, v6
+		p.poolIntact = true
 		w.checkNetConf(p, reply)
 		w.checkProvenance(p, v4, v6, mac, invokeSeq, recV4, recV6)
 		if *cancelled {
@@ -320,7 +329,12 @@ func (w *World) opAdd(p *podState, op Op) {
 				continue
 			}
 			if (v4 != "" && q.liveV4 == v4) || (v6 != "" && q.liveV6 == v6) {
-				w.run.Violate("C01", "exclusivity", "address-held-by-two-pods",
+				fp := "address-held-by-two-pods"
+				if (v4 != "" && q.liveV4 == v4 && w.cloud.recycled(v4)) || (v6 != "" && q.liveV6 == v6 && w.cloud.recycled(v6)) {
+					// the cloud handed this very address out, took it back and handed it out again during the run
+					fp += "@recycled-address"
+				}
+				w.run.Violate("C01", "exclusivity", fp,
 					"ADD for %s returned %s/%s while pod %s holds %s/%s", p.spec.Name, v4, v6, q.spec.Name, q.liveV4, q.liveV6)
 			}
 		}
@@ -370,6 +384,10 @@ func (w *World) releaseIP(p *podState, sb int, what string) {
 		return
 	}
 	p.effOps++
+	if !stale {
+		p.poolIntact = false // the pool side may be released from here on, whatever the reply says
+		p.held = false
+	}
 	if err == nil && reply != nil && reply.Success {
 		w.run.Probe("del-ok")
 	}
@@ -388,6 +406,7 @@ func (w *World) releaseIP(p *podState, sb int, what string) {
 		// effective DEL acknowledged: the daemon no longer holds it (unless sticky)
 		if !p.spec.Sticky {
 			p.recCID, p.recV4, p.recV6 = "", "", ""
+			p.held = false
 			if reply != nil && reply.Success && p.exists {
 				p.ackDel = true
 			}
@@ -480,6 +499,29 @@ func (w *World) opDrift(op Op) {
 	w.run.S.Log("drift", "address %s removed remotely from %s", ip, e.ID)
 }
 
+// opDriftENI detaches and deletes an ordinary interface remotely (somebody else did it).
+func (w *World) opDriftENI(op Op) {
+	if !w.faultsOn {
+		return
+	}
+	var live []string
+	for _, id := range w.cloud.order {
+		if e := w.cloud.enis[id]; e != nil && e.Type == "secondary" {
+			live = append(live, id)
+		}
+	}
+	if len(live) == 0 {
+		return
+	}
+	e := w.cloud.enis[live[op.ENI%len(live)]]
+	for _, ip := range append(append([]netip.Addr{}, e.V4...), e.V6...) {
+		w.cloud.removeIP(e, ip, false)
+	}
+	delete(w.cloud.enis, e.ID)
+	w.run.Fault("cloud.drift.eni-removed")
+	w.run.S.Log("drift", "interface %s detached and deleted remotely", e.ID)
+}
+
 // ---------------------------------------------------------------------------------------
 // views of the daemon's state used by oracles
 
@@ -534,55 +576,65 @@ func (w *World) viewPod(p *podState) *podView {
 	return v
 }
 
-// checkFailedAddLeak is oracle C04(d).
+// checkFailedAddLeak is oracle C04(d). The daemon hands addresses back asynchronously (the
+// interface's commit task may still be running when the reply is out), so a suspicious view is
+// confirmed after one fake second in which no other request for the pod ran.
 func (w *World) checkFailedAddLeak(p *podState, myOps int, addErr error) {
 	if p.inflight != 0 {
 		return
 	}
 	w.run.Eval()
-	recV4, recV6, exists := p.recV4, p.recV6, p.exists
-	v := w.viewPod(p)
-	if p.effOps != myOps || p.inflight != 0 {
-		return // another request for the pod interleaved: not attributable
+	recV4, recV6, exists, intact := p.recV4, p.recV6, p.exists, p.poolIntact
+	bad := func() (leak bool, lost string, v *podView) {
+		v = w.viewPod(p)
+		if p.effOps != myOps || p.inflight != 0 {
+			return false, "", v // another request for the pod interleaved: not attributable
+		}
+		if len(v.owned) > 0 && !v.hasRecord {
+			leak = true
+		}
+		if intact && exists && p.exists && v.hasRecord && (recV4 != "" || recV6 != "") && v.v4 == recV4 && v.v6 == recV6 {
+			for _, ip := range []string{recV4, recV6} {
+				if ip == "" {
+					continue
+				}
+				found := false
+				for _, o := range v.owned {
+					if o == ip {
+						found = true
+					}
+				}
+				if !found && !w.cloud.recycled(ip) {
+					lost = ip
+				}
+			}
+		}
+		return
+	}
+	leak, lost, _ := bad()
+	if !leak && lost == "" {
+		return
+	}
+	simrt.Sleep(time.Second)
+	leak, lost, v := bad()
+	site := "other"
+	msg := fmt.Sprint(addErr)
+	switch {
+	case strings.Contains(msg, "injected disk error"):
+		site = "resourceDB.Put"
+	case strings.Contains(msg, "context canceled"), strings.Contains(msg, "ctx done"), strings.Contains(msg, "deadline"):
+		site = "cancel"
+	}
+	if leak && !p.leaked {
+		p.leaked = true
+		w.run.Violate("C04", "failed-add-rollback", "failed-add-leaks-address@"+site,
+			"ADD for %s failed (%v) but one fake second later the pool still shows %v owned by the pod and no record exists", p.spec.Name, addErr, v.owned)
 	}
 	// a failed repeated ADD took nothing new: what the pod had on record stays its own
-	if exists && p.exists && v.hasRecord && (recV4 != "" || recV6 != "") && v.v4 == recV4 && v.v6 == recV6 {
-		for _, ip := range []string{recV4, recV6} {
-			if ip == "" {
-				continue
-			}
-			found := false
-			for _, o := range v.owned {
-				if o == ip {
-					found = true
-				}
-			}
-			if !found && !p.leakedRec {
-				p.leakedRec = true
-				site := "other"
-				if msg := fmt.Sprint(addErr); strings.Contains(msg, "context canceled") || strings.Contains(msg, "ctx done") || strings.Contains(msg, "deadline") {
-					site = "cancel"
-				}
-				w.run.Violate("C04", "failed-add-rollback", "failed-repeated-add-released-recorded-address@"+site,
-					"repeated ADD for %s failed (%v); the pod's recorded address %s is no longer owned by it in the pool (owned=%v) although its record still names it", p.spec.Name, addErr, ip, v.owned)
-			}
-		}
-	}
-	if len(v.owned) > 0 && !v.hasRecord && p.leaked {
-		return // left over from an earlier failed ADD that was already reported
-	}
-	if len(v.owned) > 0 && !v.hasRecord {
-		p.leaked = true
-		site := "other"
-		msg := fmt.Sprint(addErr)
-		switch {
-		case strings.Contains(msg, "injected disk error"):
-			site = "resourceDB.Put"
-		case strings.Contains(msg, "context canceled"), strings.Contains(msg, "ctx done"):
-			site = "cancel"
-		}
-		w.run.Violate("C04", "failed-add-rollback", "failed-add-leaks-address@"+site,
-			"ADD for %s failed (%v) but the pool still shows %v owned by the pod and no record exists", p.spec.Name, addErr, v.owned)
+	if lost != "" && !p.leakedRec {
+		p.leakedRec = true
+		w.run.Violate("C04", "failed-add-rollback", "failed-repeated-add-released-recorded-address@"+site,
+			"repeated ADD for %s failed (%v); the pod's recorded address %s is no longer owned by it in the pool (owned=%v) although its record still names it", p.spec.Name, addErr, lost, v.owned)
 	}
 }
 
